@@ -886,15 +886,30 @@ def execute(plan):
         def nested_hook(_value):
             probe("load-started-inside-a-load")
             w.nested_hook = None
+            inner = "topv 1\n"
+            if cur_import[0] and reuse is None and not any(
+                    c_.endswith("tw") for c_ in plan["components"]):
+                # (the inner text imports a component the outer text imports
+                # too; on a loader of its own, against the same schema
+                # object.  Not with the twin package: two loads in progress
+                # that import different twins meet known finding KF-3)
+                inner = "%import " + cur_import[0] + "\n" + inner
             try:
                 if reuse is not None:
-                    reuse.loadFile(io.StringIO("topv 1\n"))
+                    reuse.loadFile(io.StringIO(inner))
                 else:
-                    ZConfig.loadConfigFile(schema, io.StringIO("topv 1\n"))
+                    ZConfig.loadConfigFile(schema, io.StringIO(inner))
+            except ZConfig.ConfigurationError:
+                pass                  # (the application carries on)
             finally:
                 w.nested_hook = nested_hook
         w.nested_hook = nested_hook
+        cur_import = [None]
         for li, ld in enumerate(plan["loads"]):
+            cur_import[0] = next((st_["pkg"] for st_ in ld["steps"]
+                                  if st_["op"] == "import"
+                                  and not st_.get("via")
+                                  and st_["pkg"] in plan["components"]), None)
             store = render_all(ld["steps"], ld["top"])
             st = dict(store)
             st.update(pkgfiles)
